@@ -24,6 +24,12 @@ def ResRel (cls : Nat) (a b : Res) : Prop :=
     | .ok (.node k nd), .ok (.snode k' zs) => k = k' ∧ NodeRel cls k nd zs
     | _, _ => False
 
+/-- pointwise relation of two result lists of the same length -/
+def AllRel {α β : Type} (R : α → β → Prop) : List α → List β → Prop
+  | [], [] => True
+  | a :: as, b :: bs => R a b ∧ AllRel R as bs
+  | _, _ => False
+
 theorem ResRel.of_eq {cls : Nat} {a b : Res} (h : a = b) : ResRel cls a b := Or.inl h
 
 /-- the simulation between an open transaction and the reference transaction -/
@@ -110,13 +116,13 @@ theorem addCore_refines (cfg : Cfg) (hg : GoodCfg cfg) (s : Txn) (t : STxn) (h :
   unfold addCore sPut
   rw [soaNameOk_spec cfg hg]
   by_cases h1 : rds.rdclass ≠ cfg.rdclass
-  · rw [if_pos h1, if_pos h1]; first | exact ⟨h, rfl⟩ | exact h
+  · rw [if_pos h1, if_pos h1]; first | exact ⟨h, rfl⟩ | exact ⟨h, trivial⟩ | exact h
   rw [if_neg h1, if_neg h1]
   by_cases h2 : rds.rdtype = ConstsC10.soa ∧ (!soaNameOk cfg name) = true
-  · rw [if_pos h2, if_pos h2]; first | exact ⟨h, rfl⟩ | exact h
+  · rw [if_pos h2, if_pos h2]; first | exact ⟨h, rfl⟩ | exact ⟨h, trivial⟩ | exact h
   rw [if_neg h2, if_neg h2]
   by_cases h3 : extra = true
-  · rw [if_pos h3, if_pos h3]; first | exact ⟨h, rfl⟩ | exact h
+  · rw [if_pos h3, if_pos h3]; first | exact ⟨h, rfl⟩ | exact ⟨h, trivial⟩ | exact h
   rw [if_neg h3, if_neg h3]
   have hcls : rds.rdclass = cfg.rdclass := by simpa using h1
   cases replace with
@@ -124,36 +130,36 @@ theorem addCore_refines (cfg : Cfg) (hg : GoodCfg cfg) (s : Txn) (t : STxn) (h :
     simp only [if_true, Bool.not_true, checkedPut, putRdataset]
     cases hv : validateName cfg name with
     | error e =>
-      cases veto <;> simp <;> first | exact ⟨h, rfl⟩ | exact h
+      cases veto <;> simp <;> first | exact ⟨h, rfl⟩ | exact ⟨h, trivial⟩ | exact h
     | ok k =>
       cases veto with
-      | true => simp; first | exact ⟨h, rfl⟩ | exact h
+      | true => simp; first | exact ⟨h, rfl⟩ | exact ⟨h, trivial⟩ | exact h
       | false =>
         simp
-        first | exact ⟨put_refines cfg s t k rds h hcls, rfl⟩ | exact put_refines cfg s t k rds h hcls
+        first | exact ⟨put_refines cfg s t k rds h hcls, rfl⟩ | exact ⟨put_refines cfg s t k rds h hcls, trivial⟩ | exact put_refines cfg s t k rds h hcls
   | false =>
     simp only [Bool.not_false, getRdataset_eq, Bool.false_eq_true, if_false]
     cases hv : validateName cfg name with
-    | error e => simp; first | exact ⟨h, rfl⟩ | exact h
+    | error e => simp; first | exact ⟨h, rfl⟩ | exact ⟨h, trivial⟩ | exact h
     | ok k =>
       simp only [h.ver.1 k rds.rdtype rds.covers]
       cases hgq : t.ver.get (k, rds.rdtype, rds.covers) with
       | none =>
         simp only [checkedPut, putRdataset, hv]
         cases veto with
-        | true => simp; first | exact ⟨h, rfl⟩ | exact h
-        | false => simp; first | exact ⟨put_refines cfg s t k rds h hcls, rfl⟩ | exact put_refines cfg s t k rds h hcls
+        | true => simp; first | exact ⟨h, rfl⟩ | exact ⟨h, trivial⟩ | exact h
+        | false => simp; first | exact ⟨put_refines cfg s t k rds h hcls, rfl⟩ | exact ⟨put_refines cfg s t k rds h hcls, trivial⟩ | exact put_refines cfg s t k rds h hcls
       | some ex =>
         simp only [checkedPut, putRdataset, hv]
         cases veto with
-        | true => simp; first | exact ⟨h, rfl⟩ | exact h
+        | true => simp; first | exact ⟨h, rfl⟩ | exact ⟨h, trivial⟩ | exact h
         | false =>
           simp
           have hex : ex.rdclass = cfg.rdclass := by
             have hq := h.ver.1 k rds.rdtype rds.covers
             rw [hgq, getM_eq_find] at hq
             exact (find_mem hq).2.1
-          first | exact ⟨put_refines cfg s t k (ex.union rds) h ((union_hdr ex rds).1.trans hex), rfl⟩ | exact put_refines cfg s t k (ex.union rds) h ((union_hdr ex rds).1.trans hex)
+          first | exact ⟨put_refines cfg s t k (ex.union rds) h ((union_hdr ex rds).1.trans hex), rfl⟩ | exact ⟨put_refines cfg s t k (ex.union rds) h ((union_hdr ex rds).1.trans hex), trivial⟩ | exact put_refines cfg s t k (ex.union rds) h ((union_hdr ex rds).1.trans hex)
 
 /-! ### deletions -/
 
@@ -220,37 +226,39 @@ theorem deleteAll_refines (cfg : Cfg) (s : Txn) (t : STxn) (h : TSim cfg s t) (e
   | true =>
     simp only [if_true, getNode]
     cases hv : validateName cfg name with
-    | error e => simp; first | exact ⟨h, rfl⟩ | exact h
+    | error e => simp; first | exact ⟨h, rfl⟩ | exact ⟨h, trivial⟩ | exact h
     | ok k =>
       simp only
       have hh := h.ver.2 k
       cases hq : nodesGet s.ver k with
       | none =>
         rw [hq] at hh
-        simp [← hh]; first | exact ⟨h, rfl⟩ | exact h
+        simp [← hh]; first | exact ⟨h, rfl⟩ | exact ⟨h, trivial⟩ | exact h
       | some nd =>
         rw [hq] at hh
         simp only [← hh]
         cases veto with
-        | true => simp [checkedDeleteName]; first | exact ⟨h, rfl⟩ | exact h
+        | true => simp [checkedDeleteName]; first | exact ⟨h, rfl⟩ | exact ⟨h, trivial⟩ | exact h
         | false =>
-          simp
           obtain ⟨h1, h2⟩ := key k hv
-          exact ⟨h1, by rw [h2]; rfl⟩
+          rw [← hh] at h1
+          simp only [Option.isSome_some, Bool.or_true] at h1
+          simp
+          exact ⟨h1, h2⟩
   | false =>
     simp only [Bool.false_eq_true, if_false]
     cases veto with
     | true =>
       simp only [checkedDeleteName, if_true]
-      cases hv : validateName cfg name <;> simp <;> first | exact ⟨h, rfl⟩ | exact h
+      cases hv : validateName cfg name <;> simp <;> first | exact ⟨h, rfl⟩ | exact ⟨h, trivial⟩ | exact h
     | false =>
       cases hv : validateName cfg name with
       | error e =>
-        simp [checkedDeleteName, deleteNode, hv]; first | exact ⟨h, rfl⟩ | exact h
+        simp [checkedDeleteName, deleteNode, hv]; first | exact ⟨h, rfl⟩ | exact ⟨h, trivial⟩ | exact h
       | ok k =>
-        simp
         obtain ⟨h1, h2⟩ := key k hv
-        exact ⟨h1, by rw [h2]; rfl⟩
+        simp
+        exact ⟨h1, h2⟩
 
 theorem deleteCore_refines (cfg : Cfg) (hg : GoodCfg cfg) (s : Txn) (t : STxn) (h : TSim cfg s t)
     (exact : Bool) (name : Name) (sel : Sel) (veto : Bool) :
@@ -265,18 +273,18 @@ theorem deleteCore_refines (cfg : Cfg) (hg : GoodCfg cfg) (s : Txn) (t : STxn) (
     unfold deleteCore sDelete
     simp only [getRdataset_eq]
     cases hv : validateName cfg name with
-    | error e => first | exact ⟨h, rfl⟩ | exact h
+    | error e => first | exact ⟨h, rfl⟩ | exact ⟨h, trivial⟩ | exact h
     | ok k =>
       simp only [h.ver.1 k ty c]
       cases hgq : t.ver.get (k, ty, c) with
-      | none => cases exact <;> first | exact ⟨h, rfl⟩ | exact h
+      | none => cases exact <;> first | exact ⟨h, rfl⟩ | exact ⟨h, trivial⟩ | exact h
       | some ex =>
         cases veto with
-        | true => simp [checkedDeleteRdataset]; first | exact ⟨h, rfl⟩ | exact h
+        | true => simp [checkedDeleteRdataset]; first | exact ⟨h, rfl⟩ | exact ⟨h, trivial⟩ | exact h
         | false =>
           obtain ⟨h1, h2⟩ := checkedDeleteRdataset_refines cfg hg s t h name k ty c hv
           simp only [h1, Bool.false_eq_true, if_false]
-          first | exact ⟨h2, rfl⟩ | exact h2
+          first | exact ⟨h2, rfl⟩ | exact ⟨h2, trivial⟩ | exact h2
   | rds r =>
     unfold deleteCore sDelete
     dsimp only
@@ -284,19 +292,19 @@ theorem deleteCore_refines (cfg : Cfg) (hg : GoodCfg cfg) (s : Txn) (t : STxn) (
     · rw [if_pos h0, if_pos h0]; exact hall
     rw [if_neg h0, if_neg h0]
     by_cases h1 : r.rdclass ≠ cfg.rdclass
-    · rw [if_pos h1, if_pos h1]; first | exact ⟨h, rfl⟩ | exact h
+    · rw [if_pos h1, if_pos h1]; first | exact ⟨h, rfl⟩ | exact ⟨h, trivial⟩ | exact h
     rw [if_neg h1, if_neg h1]
     simp only [getRdataset_eq]
     cases hv : validateName cfg name with
-    | error e => first | exact ⟨h, rfl⟩ | exact h
+    | error e => first | exact ⟨h, rfl⟩ | exact ⟨h, trivial⟩ | exact h
     | ok k =>
       simp only [h.ver.1 k r.rdtype r.covers]
       cases hgq : t.ver.get (k, r.rdtype, r.covers) with
-      | none => cases exact <;> first | exact ⟨h, rfl⟩ | exact h
+      | none => cases exact <;> first | exact ⟨h, rfl⟩ | exact ⟨h, trivial⟩ | exact h
       | some ex =>
         simp only
         by_cases h2 : exact = true ∧ (!(ex.intersection r).eq r) = true
-        · rw [if_pos h2, if_pos h2]; first | exact ⟨h, rfl⟩ | exact h
+        · rw [if_pos h2, if_pos h2]; first | exact ⟨h, rfl⟩ | exact ⟨h, trivial⟩ | exact h
         rw [if_neg h2, if_neg h2]
         have hex : ex.rdclass = cfg.rdclass := by
           have hq := h.ver.1 k r.rdtype r.covers
@@ -306,17 +314,17 @@ theorem deleteCore_refines (cfg : Cfg) (hg : GoodCfg cfg) (s : Txn) (t : STxn) (
         | true =>
           simp only [if_true]
           by_cases h3 : (ex.difference r).items.length = 0
-          · rw [if_pos h3]; simp [checkedDeleteRdataset]; first | exact ⟨h, rfl⟩ | exact h
-          · rw [if_neg h3]; simp [checkedPut]; first | exact ⟨h, rfl⟩ | exact h
+          · rw [if_pos h3]; simp [checkedDeleteRdataset]; first | exact ⟨h, rfl⟩ | exact ⟨h, trivial⟩ | exact h
+          · rw [if_neg h3]; simp [checkedPut]; first | exact ⟨h, rfl⟩ | exact ⟨h, trivial⟩ | exact h
         | false =>
           simp only [Bool.false_eq_true, if_false]
           by_cases h3 : (ex.difference r).items.length = 0
           · rw [if_pos h3, if_pos h3]
             obtain ⟨e1, e2⟩ := checkedDeleteRdataset_refines cfg hg s t h name k (ex.difference r).rdtype (ex.difference r).covers hv
-            rw [e1]; first | exact ⟨e2, rfl⟩ | exact e2
+            rw [e1]; first | exact ⟨e2, rfl⟩ | exact ⟨e2, trivial⟩ | exact e2
           · rw [if_neg h3, if_neg h3]
             simp only [checkedPut, putRdataset, hv, Bool.false_eq_true, if_false]
-            first | exact ⟨put_refines cfg s t k (ex.difference r) h hex, rfl⟩ | exact put_refines cfg s t k (ex.difference r) h hex
+            first | exact ⟨put_refines cfg s t k (ex.difference r) h hex, rfl⟩ | exact ⟨put_refines cfg s t k (ex.difference r) h hex, trivial⟩ | exact put_refines cfg s t k (ex.difference r) h hex
 
 /-! ### ending -/
 
@@ -330,24 +338,24 @@ theorem end_refines (cfg : Cfg) (s : Txn) (t : STxn) (h : TSim cfg s t) (commit 
   by_cases hr : s.readOnly = true
   · rw [if_pos hr, if_pos hr]
     exact ⟨{ zone := h.zone, ver := h.ver, izone := h.izone, iver := h.iver, ro := rfl, ended := rfl, changed := h.changed,
-             unchanged := h.unchanged }, rfl⟩
+             unchanged := h.unchanged }, by first | rfl | trivial⟩
   rw [if_neg hr, if_neg hr]
   cases commit with
   | false =>
     simp only [Bool.false_eq_true, false_and, if_false]
     exact ⟨{ zone := h.zone, ver := h.ver, izone := h.izone, iver := h.iver, ro := rfl, ended := rfl, changed := h.changed,
-             unchanged := h.unchanged }, rfl⟩
+             unchanged := h.unchanged }, by first | rfl | trivial⟩
   | true =>
     simp only [true_and, if_true]
     by_cases hc : s.changed = true
     · rw [if_pos hc]
       exact ⟨{ zone := h.ver, ver := h.ver, izone := h.iver, iver := h.iver, ro := rfl, ended := rfl, changed := h.changed,
-               unchanged := fun _ => rfl }, rfl⟩
+               unchanged := fun _ => rfl }, by first | rfl | trivial⟩
     · rw [if_neg hc]
       have hc' : s.changed = false := by simpa using hc
       have hz := h.unchanged hc'
       refine ⟨{ zone := ?_, ver := h.ver, izone := h.izone, iver := h.iver, ro := rfl, ended := rfl, changed := h.changed,
-                unchanged := h.unchanged }, rfl⟩
+                unchanged := h.unchanged }, by first | rfl | trivial⟩
       show Sim cfg.rdclass s.zone t.ver
       rw [← hz]; exact h.ver
 
@@ -355,173 +363,220 @@ theorem end_refines (cfg : Cfg) (s : Txn) (t : STxn) (h : TSim cfg s t) (commit 
 
 theorem step_refines (cfg : Cfg) (hg : GoodCfg cfg) (s : Txn) (t : STxn) (h : TSim cfg s t) (op : Op) :
     TSim cfg (step cfg s op).1 (sStep cfg t (toSOp op)).1 ∧
-      absRes (step cfg s op).2 = (sStep cfg t (toSOp op)).2 := by
+      ResRel cfg.rdclass (step cfg s op).2 (sStep cfg t (toSOp op)).2 := by
+  have lift : ∀ {a : Txn × Res} {b : STxn × Res}, (TSim cfg a.1 b.1 ∧ a.2 = b.2) →
+      TSim cfg a.1 b.1 ∧ ResRel cfg.rdclass a.2 b.2 := fun h => ⟨h.1, ResRel.of_eq h.2⟩
   cases op with
-  | commit => exact end_refines cfg s t h true
-  | rollback => exact end_refines cfg s t h false
+  | commit => exact lift (end_refines cfg s t h true)
+  | rollback => exact lift (end_refines cfg s t h false)
   | add args veto =>
     unfold step toSOp
     cases hp : parseAddArgs args with
     | error e =>
       simp only [sStep, txnAdd, hp, ← h.ended, ← h.ro]
       by_cases he : s.ended = true
-      · rw [if_pos he, if_pos he]; exact ⟨h, rfl⟩
+      · rw [if_pos he, if_pos he]; exact ⟨h, ResRel.of_eq rfl⟩
       rw [if_neg he, if_neg he]
       by_cases hr : s.readOnly = true
-      · rw [if_pos hr, if_pos hr]; exact ⟨h, rfl⟩
-      rw [if_neg hr, if_neg hr]; exact ⟨h, rfl⟩
+      · rw [if_pos hr, if_pos hr]; exact ⟨h, ResRel.of_eq rfl⟩
+      rw [if_neg hr, if_neg hr]; exact ⟨h, ResRel.of_eq rfl⟩
     | ok x =>
       obtain ⟨n, r, extra⟩ := x
       simp only [sStep, txnAdd, hp, ← h.ended, ← h.ro]
       by_cases he : s.ended = true
-      · rw [if_pos he, if_pos he]; exact ⟨h, rfl⟩
+      · rw [if_pos he, if_pos he]; exact ⟨h, ResRel.of_eq rfl⟩
       rw [if_neg he, if_neg he]
       by_cases hr : s.readOnly = true
-      · rw [if_pos hr, if_pos hr]; exact ⟨h, rfl⟩
+      · rw [if_pos hr, if_pos hr]; exact ⟨h, ResRel.of_eq rfl⟩
       rw [if_neg hr, if_neg hr]
-      exact addCore_refines cfg hg s t h false n r extra veto
+      exact lift <| addCore_refines cfg hg s t h false n r extra veto
   | replace args veto =>
     unfold step toSOp
     cases hp : parseAddArgs args with
     | error e =>
       simp only [sStep, txnAdd, hp, ← h.ended, ← h.ro]
       by_cases he : s.ended = true
-      · rw [if_pos he, if_pos he]; exact ⟨h, rfl⟩
+      · rw [if_pos he, if_pos he]; exact ⟨h, ResRel.of_eq rfl⟩
       rw [if_neg he, if_neg he]
       by_cases hr : s.readOnly = true
-      · rw [if_pos hr, if_pos hr]; exact ⟨h, rfl⟩
-      rw [if_neg hr, if_neg hr]; exact ⟨h, rfl⟩
+      · rw [if_pos hr, if_pos hr]; exact ⟨h, ResRel.of_eq rfl⟩
+      rw [if_neg hr, if_neg hr]; exact ⟨h, ResRel.of_eq rfl⟩
     | ok x =>
       obtain ⟨n, r, extra⟩ := x
       simp only [sStep, txnAdd, hp, ← h.ended, ← h.ro]
       by_cases he : s.ended = true
-      · rw [if_pos he, if_pos he]; exact ⟨h, rfl⟩
+      · rw [if_pos he, if_pos he]; exact ⟨h, ResRel.of_eq rfl⟩
       rw [if_neg he, if_neg he]
       by_cases hr : s.readOnly = true
-      · rw [if_pos hr, if_pos hr]; exact ⟨h, rfl⟩
+      · rw [if_pos hr, if_pos hr]; exact ⟨h, ResRel.of_eq rfl⟩
       rw [if_neg hr, if_neg hr]
-      exact addCore_refines cfg hg s t h true n r extra veto
+      exact lift <| addCore_refines cfg hg s t h true n r extra veto
   | delete args veto =>
     unfold step toSOp
     cases hp : parseDeleteArgs args with
     | error e =>
       simp only [sStep, txnDelete, hp, ← h.ended, ← h.ro]
       by_cases he : s.ended = true
-      · rw [if_pos he, if_pos he]; exact ⟨h, rfl⟩
+      · rw [if_pos he, if_pos he]; exact ⟨h, ResRel.of_eq rfl⟩
       rw [if_neg he, if_neg he]
       by_cases hr : s.readOnly = true
-      · rw [if_pos hr, if_pos hr]; exact ⟨h, rfl⟩
-      rw [if_neg hr, if_neg hr]; exact ⟨h, rfl⟩
+      · rw [if_pos hr, if_pos hr]; exact ⟨h, ResRel.of_eq rfl⟩
+      rw [if_neg hr, if_neg hr]; exact ⟨h, ResRel.of_eq rfl⟩
     | ok x =>
       obtain ⟨n, sel⟩ := x
       simp only [sStep, txnDelete, hp, ← h.ended, ← h.ro]
       by_cases he : s.ended = true
-      · rw [if_pos he, if_pos he]; exact ⟨h, rfl⟩
+      · rw [if_pos he, if_pos he]; exact ⟨h, ResRel.of_eq rfl⟩
       rw [if_neg he, if_neg he]
       by_cases hr : s.readOnly = true
-      · rw [if_pos hr, if_pos hr]; exact ⟨h, rfl⟩
+      · rw [if_pos hr, if_pos hr]; exact ⟨h, ResRel.of_eq rfl⟩
       rw [if_neg hr, if_neg hr]
-      exact deleteCore_refines cfg hg s t h false n sel veto
+      exact lift <| deleteCore_refines cfg hg s t h false n sel veto
   | deleteExact args veto =>
     unfold step toSOp
     cases hp : parseDeleteArgs args with
     | error e =>
       simp only [sStep, txnDelete, hp, ← h.ended, ← h.ro]
       by_cases he : s.ended = true
-      · rw [if_pos he, if_pos he]; exact ⟨h, rfl⟩
+      · rw [if_pos he, if_pos he]; exact ⟨h, ResRel.of_eq rfl⟩
       rw [if_neg he, if_neg he]
       by_cases hr : s.readOnly = true
-      · rw [if_pos hr, if_pos hr]; exact ⟨h, rfl⟩
-      rw [if_neg hr, if_neg hr]; exact ⟨h, rfl⟩
+      · rw [if_pos hr, if_pos hr]; exact ⟨h, ResRel.of_eq rfl⟩
+      rw [if_neg hr, if_neg hr]; exact ⟨h, ResRel.of_eq rfl⟩
     | ok x =>
       obtain ⟨n, sel⟩ := x
       simp only [sStep, txnDelete, hp, ← h.ended, ← h.ro]
       by_cases he : s.ended = true
-      · rw [if_pos he, if_pos he]; exact ⟨h, rfl⟩
+      · rw [if_pos he, if_pos he]; exact ⟨h, ResRel.of_eq rfl⟩
       rw [if_neg he, if_neg he]
       by_cases hr : s.readOnly = true
-      · rw [if_pos hr, if_pos hr]; exact ⟨h, rfl⟩
+      · rw [if_pos hr, if_pos hr]; exact ⟨h, ResRel.of_eq rfl⟩
       rw [if_neg hr, if_neg hr]
-      exact deleteCore_refines cfg hg s t h true n sel veto
+      exact lift <| deleteCore_refines cfg hg s t h true n sel veto
   | updateSerial value relative name veto =>
     unfold step toSOp
     simp only [sStep, ← h.ended, ← h.ro]
     by_cases he : s.ended = true
-    · rw [if_pos he, if_pos he]; exact ⟨h, rfl⟩
+    · rw [if_pos he, if_pos he]; exact ⟨h, ResRel.of_eq rfl⟩
     rw [if_neg he, if_neg he]
     unfold txnUpdateSerial
     by_cases hneg : value < 0
-    · rw [if_pos hneg, if_pos hneg]; exact ⟨h, rfl⟩
+    · rw [if_pos hneg, if_pos hneg]; exact ⟨h, ResRel.of_eq rfl⟩
     rw [if_neg hneg, if_neg hneg]
     simp only [getRdataset_eq]
     cases hv : validateName cfg name with
-    | error e => exact ⟨h, rfl⟩
+    | error e => exact ⟨h, ResRel.of_eq rfl⟩
     | ok k =>
       simp only [h.ver.1 k ConstsC10.soa 0]
       cases hgq : t.ver.get (k, ConstsC10.soa, 0) with
-      | none => exact ⟨h, rfl⟩
+      | none => exact ⟨h, ResRel.of_eq rfl⟩
       | some rds =>
         simp only
         cases hit : rds.items with
-        | nil => exact ⟨h, rfl⟩
+        | nil => exact ⟨h, ResRel.of_eq rfl⟩
         | cons rd0 rest =>
           simp only
           cases hns : newSerial rd0.val value relative with
-          | error e => exact ⟨h, rfl⟩
+          | error e => exact ⟨h, ResRel.of_eq rfl⟩
           | ok serial =>
             simp only
             by_cases hr : s.readOnly = true
-            · rw [if_pos hr, if_pos hr]; exact ⟨h, rfl⟩
+            · rw [if_pos hr, if_pos hr]; exact ⟨h, ResRel.of_eq rfl⟩
             rw [if_neg hr, if_neg hr]
             have hparse : parseAddArgs [.name name, .rds (Rdataset.fromRdata rds.ttl { rd0 with val := serial })] =
                 .ok (name, Rdataset.fromRdata rds.ttl { rd0 with val := serial }, false) := by
               simp [parseAddArgs, rdsFromArgs]
             unfold txnAdd
             rw [hparse]
-            exact addCore_refines cfg hg s t h true name _ false veto
+            exact lift <| addCore_refines cfg hg s t h true name _ false veto
   | get name ty c =>
     unfold step toSOp
     simp only [sStep, ← h.ended, getRdataset_eq]
     by_cases he : s.ended = true
-    · rw [if_pos he, if_pos he]; exact ⟨h, rfl⟩
+    · rw [if_pos he, if_pos he]; exact ⟨h, ResRel.of_eq rfl⟩
     rw [if_neg he, if_neg he]
     cases hv : validateName cfg name with
-    | error e => exact ⟨h, rfl⟩
-    | ok k => simp only [h.ver.1 k ty c]; exact ⟨h, rfl⟩
+    | error e => exact ⟨h, ResRel.of_eq rfl⟩
+    | ok k => simp only [h.ver.1 k ty c]; exact ⟨h, ResRel.of_eq rfl⟩
   | nameExists name =>
     unfold step toSOp
     simp only [sStep, ← h.ended, getNode]
     by_cases he : s.ended = true
-    · rw [if_pos he, if_pos he]; exact ⟨h, rfl⟩
+    · rw [if_pos he, if_pos he]; exact ⟨h, ResRel.of_eq rfl⟩
     rw [if_neg he, if_neg he]
     cases hv : validateName cfg name with
-    | error e => exact ⟨h, rfl⟩
-    | ok k => simp only [h.ver.2 k]; exact ⟨h, rfl⟩
+    | error e => exact ⟨h, ResRel.of_eq rfl⟩
+    | ok k => simp only [h.ver.2 k]; exact ⟨h, ResRel.of_eq rfl⟩
   | changed =>
     unfold step toSOp
-    simp only [sStep, ← h.ended]
+    simp only [sStep, ← h.ended, ← h.ro, ← h.changed]
     by_cases he : s.ended = true
-    · rw [if_pos he, if_pos he]; exact ⟨h, rfl⟩
-    rw [if_neg he, if_neg he]; exact ⟨h, rfl⟩
+    · rw [if_pos he, if_pos he]; exact ⟨h, ResRel.of_eq rfl⟩
+    rw [if_neg he, if_neg he]; exact ⟨h, ResRel.of_eq rfl⟩
   | dump =>
     unfold step toSOp
     simp only [sStep, ← h.ended]
     by_cases he : s.ended = true
-    · rw [if_pos he, if_pos he]; exact ⟨h, rfl⟩
-    rw [if_neg he, if_neg he]; exact ⟨h, rfl⟩
+    · rw [if_pos he, if_pos he]; exact ⟨h, ResRel.of_eq rfl⟩
+    rw [if_neg he, if_neg he]; exact ⟨h, Or.inr h.ver⟩
+  | getNode name =>
+    unfold step toSOp
+    simp only [sStep, ← h.ended, hg.gn, Bool.not_false, Bool.and_true, decide_eq_true_eq, and_true]
+    by_cases he : s.ended = true
+    · rw [if_pos he, if_pos he]; exact ⟨h, ResRel.of_eq rfl⟩
+    rw [if_neg he, if_neg he]
+    cases hv : validateName cfg name with
+    | error e => exact ⟨h, ResRel.of_eq rfl⟩
+    | ok k =>
+      refine ⟨h, Or.inr ⟨rfl, ?_⟩⟩
+      have hh := h.ver.2 k
+      cases hq : nodesGet s.ver k with
+      | none =>
+        rw [hq] at hh
+        simp [← hh, NodeRel]
+      | some nd =>
+        rw [hq] at hh
+        simp only [← hh, Option.isSome_some, if_true, NodeRel]
+        intro ty c
+        have this : nd.find cfg.rdclass ty c = t.ver.get (k, ty, c) := by
+          simpa [getM, hq] using h.ver.1 k ty c
+        rw [this]
+        unfold SZone.atName
+        rw [sget_filter t.ver (fun key => decide (key.1 = k)) (k, ty, c)]
+        simp
+
+/-- `get` and `name_exists` answer exactly as the reference model does -/
+theorem reads_refine (cfg : Cfg) (s : Txn) (t : STxn) (h : TSim cfg s t) (n : Name) (ty c : Nat) :
+    (step cfg s (.get n ty c)).2 = (sStep cfg t (.get n ty c)).2 ∧
+      (step cfg s (.nameExists n)).2 = (sStep cfg t (.nameExists n)).2 := by
+  constructor
+  · simp only [step, sStep, ← h.ended, getRdataset_eq]
+    by_cases he : s.ended = true
+    · rw [if_pos he, if_pos he]
+    rw [if_neg he, if_neg he]
+    cases hv : validateName cfg n with
+    | error e => rfl
+    | ok k => simp only [h.ver.1 k ty c]
+  · simp only [step, sStep, ← h.ended, getNode]
+    by_cases he : s.ended = true
+    · rw [if_pos he, if_pos he]
+    rw [if_neg he, if_neg he]
+    cases hv : validateName cfg n with
+    | error e => rfl
+    | ok k => simp only [h.ver.2 k]
 
 /-! ### histories -/
 
 theorem run_refines (cfg : Cfg) (hg : GoodCfg cfg) (ops : List Op) (s : Txn) (t : STxn) (h : TSim cfg s t) :
     TSim cfg (run cfg s ops).1 (sRun cfg t (ops.map toSOp)).1 ∧
-      (run cfg s ops).2.map absRes = (sRun cfg t (ops.map toSOp)).2 := by
+      AllRel (ResRel cfg.rdclass) (run cfg s ops).2 (sRun cfg t (ops.map toSOp)).2 := by
   induction ops generalizing s t with
-  | nil => exact ⟨h, rfl⟩
+  | nil => exact ⟨h, trivial⟩
   | cons op rest ih =>
     obtain ⟨h1, h2⟩ := step_refines cfg hg s t h op
     obtain ⟨h3, h4⟩ := ih (step cfg s op).1 (sStep cfg t (toSOp op)).1 h1
     simp only [run, sRun, List.map_cons]
-    exact ⟨h3, by rw [h2, h4]⟩
+    exact ⟨h3, h2, h4⟩
 
 theorem exit_refines (cfg : Cfg) (s : Txn) (t : STxn) (h : TSim cfg s t) (exc : Bool) :
     TSim cfg (exitTxn s exc) (sExit t exc) := by
